@@ -349,10 +349,9 @@ class FormulaManager(object):
           - A float
           - (Optionally) a mpq or mpz object
         """
-        # TODO could this be improved by storing only the relative Fraction (or int maybe) in the real_constants dict?
-        if value in self.real_constants:
-            return self.real_constants[value]
-
+        # The argument is validated before the cache is consulted:
+        # the cache is keyed on the value of the constant, and values
+        # of other types can compare equal to it (e.g. True == 1)
         if is_pysmt_fraction(value):
             val = value
         elif isinstance(value, tuple):
@@ -363,17 +362,20 @@ class FormulaManager(object):
             raise PysmtTypeError("Invalid type in constant. The type was:" + \
                                  str(type(value)))
 
+        if val in self.real_constants:
+            return self.real_constants[val]
+
         n = self.create_node(node_type=op.REAL_CONSTANT,
                              args=tuple(),
                              payload=val)
-        self.real_constants[value] = n
+        self.real_constants[val] = n
         return n
 
     def Int(self, value: int) -> FNode:
         """Return a constant of type INT."""
-        if value in self.int_constants:
-            return self.int_constants[value]
-
+        # The argument is validated before the cache is consulted:
+        # values of other types can compare equal to an integer
+        # (e.g. 1.0 == 1, True == 1)
         if is_pysmt_integer(value):
             val = value
         elif is_python_integer(value):
@@ -381,10 +383,14 @@ class FormulaManager(object):
         else:
             raise PysmtTypeError("Invalid type in constant. The type was:" + \
                                  str(type(value)))
+
+        if val in self.int_constants:
+            return self.int_constants[val]
+
         n = self.create_node(node_type=op.INT_CONSTANT,
                              args=tuple(),
                              payload=val)
-        self.int_constants[value] = n
+        self.int_constants[val] = n
         return n
 
     def String(self, value: str) -> FNode:
